@@ -27,8 +27,8 @@ type c17Case struct {
 	Kind   string  `json:"kind"`   // map | arr
 	Flavor int     `json:"flavor"` // map: 0 i32 1 i64 2 str 3 bytes
 	KS     int     `json:"ks"`
-	VS     int     `json:"vs"`     // value / element size
-	Cap    int     `json:"cap"`    // array initial capacity
+	VS     int     `json:"vs"`             // value / element size
+	Cap    int     `json:"cap"`            // array initial capacity
 	Init   []c17Op `json:"init,omitempty"` // from_pairs initial pairs (may contain duplicate keys)
 	Ops    []c17Op `json:"ops"`
 }
@@ -466,8 +466,8 @@ func clip(s string) string {
 
 func init() {
 	core.Register(&core.Prop{
-		ID: "C17",
-		Rule: "rapid-generated operation histories against the real runtime (clang ASan+UBSan build of map.c, array.c, optional.c, len.c, append.c, co-process): maps of flavour i32/i64/str/bytes(k) x value sizes {1,4,8,16,36}, optional from_pairs with duplicate keys, then set/get/get_optional_out/has/unwrap_or/size/iterate over key spaces 3..150 (fresh-key runs cross the 13/25/49/97 resize thresholds); arrays with elem sizes {1,4,8,16,36}, initial cap 0..8, append (direct and via ferret_append_array)/get/set with indices in [-2,len+2]/resize/len. Model: Go map / slice; invariant (size, every lookup, iteration yields each entry exactly once, array dump) after every step (every 8th step above 16 keys, always at thresholds). non-trivial = history crosses >=1 resize/growth and then updates an existing key, misses, or sets/refuses an index; distinct = hash of the history",
+		ID:    "C17",
+		Rule:  "rapid-generated operation histories against the real runtime (clang ASan+UBSan build of map.c, array.c, optional.c, len.c, append.c, co-process): maps of flavour i32/i64/str/bytes(k) x value sizes {1,4,8,16,36}, optional from_pairs with duplicate keys, then set/get/get_optional_out/has/unwrap_or/size/iterate over key spaces 3..150 (fresh-key runs cross the 13/25/49/97 resize thresholds); arrays with elem sizes {1,4,8,16,36}, initial cap 0..8, append (direct and via ferret_append_array)/get/set with indices in [-2,len+2]/resize/len. Model: Go map / slice; invariant (size, every lookup, iteration yields each entry exactly once, array dump) after every step (every 8th step above 16 keys, always at thresholds). non-trivial = history crosses >=1 resize/growth and then updates an existing key, misses, or sets/refuses an index; distinct = hash of the history",
 		Gen:   c17Gen,
 		New:   func() any { return &c17Case{} },
 		Check: c17Check,
